@@ -143,6 +143,7 @@ Section Succeeds.
     destruct (pto_output po) as [po'|] eqn:Epo'; [|discriminate].
     apply andb_true_iff in Hio as [Hoki Hoko].
     unfold map_binding_operation. rewrite style_eq.
+    destruct (default_style_other b p bo) as [_ [Dt _]]. rewrite Dt.
     replace (operation_namespace (cf_transport (op_config (port_config b p) bo))) with (Some m_soap_env).
     2:{ unfold op_config, port_config. destruct (bo_soap bo); cbn [cf_transport]; rewrite Hsb; cbn [obind]; rewrite Htr; reflexivity. }
     unfold map_binding_operation_messages. rewrite Ebi, Ebo, Epi, Epo'.
